@@ -314,6 +314,7 @@ class Model(object):
         self.frames = [[] for _ in sc['slots']]
         self.faulted = False
         self.nested_done = 0
+        self.depth = 0
         for spec in sc['slots']:
             ls = {}
             for ev in KINDS.values():
@@ -333,9 +334,11 @@ class Model(object):
 
     def evaluate(self, s, tree):
         self.frames[s].append(Counter())
+        self.depth += 1
         try:
             return self.ev(s, tree)
         finally:
+            self.depth -= 1
             self.frames[s].pop()
 
     def emit(self, s, ev, payload, value):
@@ -344,7 +347,7 @@ class Model(object):
             n = self._inv(s, 'l:%s#%d' % (ev, L['idx']))
             script = L['script']
             act = script[n] if n < len(script) else script[-1]
-            self.logs[s].append([ev, L['idx'], payload])
+            self.logs[s].append([ev, L['idx'], payload, self.depth])
             if L['once'] and not self.full:
                 self.listeners[s][ev] = [x for x in self.listeners[s][ev] if x is not L]
             a = act['a']
@@ -423,7 +426,7 @@ class Model(object):
                 n = self._inv(s, 'f:' + name)
                 script = self.fns[s][name]
                 act = script[n] if n < len(script) else script[-1]
-                self.logs[s].append(['fn', name, args])
+                self.logs[s].append(['fn', name, args, self.depth])
                 if act['a'] == 'raise':
                     self.faulted = True
                     value = UNKNOWN
@@ -672,7 +675,11 @@ def execute(sc, stats):
             # the model knows exactly where an unbound name stops the evaluation
             stats['judged_exact_prefix'] += 1
         for s in range(nslots):
-            if not is_subsequence(_model_full(sc, s), real_logs[s]):
+            # under faults a nested evaluation may happen at a later event than in the model (invocation
+            # counts shift), so only the outer evaluation's own events are held to order here
+            outer_real = [e for e in real_logs[s] if e[3] == 1]
+            outer_model = [e for e in _model_full(sc, s) if e[3] == 1]
+            if not is_subsequence(outer_model, outer_real):
                 vio.append({'invariant': 'E5_at_most_once_in_order', 'sig': 'E5',
                             'detail': {'formula': formula, 'slot': s, 'error': err,
                                        'real_log': [_show(e) for e in real_logs[s][:12]],
